@@ -236,4 +236,62 @@ theorem iter_err_le_rate (hD : 1 ≤ D) (hM : 0 ≤ M)
 
 end
 
+/-! ### every anchored graph has a level function -/
+
+/-- `j` reaches a non-free junction in exactly `k` links -/
+inductive ReachN (nbrs : Nat → List Nat) (free : Nat → Prop) : Nat → Nat → Prop
+  | base (j : Nat) : ¬ free j → ReachN nbrs free 0 j
+  | step (k j t : Nat) : t ∈ nbrs j → ReachN nbrs free k t → ReachN nbrs free (k + 1) j
+
+theorem reachN_of_reach {nbrs : Nat → List Nat} {free : Nat → Prop} {j : Nat} (h : Reach nbrs free j) :
+    ∃ k, ReachN nbrs free k j := by
+  induction h with
+  | base j hnf => exact ⟨0, ReachN.base j hnf⟩
+  | step j t ht _ ih => obtain ⟨k, hk⟩ := ih; exact ⟨k + 1, ReachN.step k j t ht hk⟩
+
+theorem exists_min_nat (P : Nat → Prop) (h : ∃ k, P k) : ∃ k, P k ∧ ∀ m, m < k → ¬ P m := by
+  obtain ⟨k, hk⟩ := h
+  induction k using Nat.strong_induction_on with
+  | _ k ih =>
+    by_cases hmin : ∀ m, m < k → ¬ P m
+    · exact ⟨k, hk, hmin⟩
+    · simp only [not_forall, not_not] at hmin
+      obtain ⟨m, hm, hPm⟩ := hmin
+      exact ih m hm hPm
+
+/-- the number of links to the frame (0 where there is no path) -/
+noncomputable def levelOf (nbrs : Nat → List Nat) (free : Nat → Prop) (j : Nat) : Nat :=
+  open Classical in
+  if h : ∃ k, ReachN nbrs free k j then Classical.choose (exists_min_nat _ h) else 0
+
+theorem levelOf_spec (nbrs : Nat → List Nat) (free : Nat → Prop) (j : Nat) (h : ∃ k, ReachN nbrs free k j) :
+    ReachN nbrs free (levelOf nbrs free j) j ∧ ∀ m, m < levelOf nbrs free j → ¬ ReachN nbrs free m j := by
+  unfold levelOf
+  rw [dif_pos h]
+  exact Classical.choose_spec (exists_min_nat _ h)
+
+/-- a free junction that reaches the frame has a neighbour of smaller level -/
+theorem levelOf_nbr (nbrs : Nat → List Nat) (free : Nat → Prop) (j : Nat) (hf : free j)
+    (h : ∃ k, ReachN nbrs free k j) : ∃ t ∈ nbrs j, levelOf nbrs free t < levelOf nbrs free j := by
+  obtain ⟨hr, _⟩ := levelOf_spec nbrs free j h
+  generalize hk : levelOf nbrs free j = k at hr
+  cases hr with
+  | base _ hnf => exact absurd hf hnf
+  | step k' _ t ht hrt =>
+    refine ⟨t, ht, ?_⟩
+    have ht' : ∃ k, ReachN nbrs free k t := ⟨k', hrt⟩
+    have hmin := (levelOf_spec nbrs free t ht').2
+    by_contra hge
+    exact hmin k' (by omega) hrt
+
+theorem exists_bound (l : List Nat) (f : Nat → Nat) : ∃ B, ∀ j ∈ l, f j ≤ B := by
+  induction l with
+  | nil => exact ⟨0, fun j hj => by simp at hj⟩
+  | cons a l ih =>
+    obtain ⟨B, hB⟩ := ih
+    refine ⟨max B (f a), fun j hj => ?_⟩
+    rcases List.mem_cons.mp hj with rfl | hj
+    · exact Nat.le_max_right _ _
+    · exact (hB j hj).trans (Nat.le_max_left _ _)
+
 end CBV.C15
